@@ -122,11 +122,12 @@ Qed.
 Print Assumptions c06_csrf_nonget.
 
 (* the full form is false of the current tree (finding F15): these are exactly the routes whose
-   state-changing effect a cross-site GET carrying the victim's session reaches *)
+   state-changing effect a cross-site GET carrying the victim's session reaches (ten since the
+   registration-finish handlers insist on POST, 6ebb558) *)
 Theorem c06_get_state_changers :
   get_state_changers =
-  ["runtimeState.u2fRegisterRequest"; "runtimeState.u2fRegisterResponse"; "runtimeState.u2fSignRequest";
-   "runtimeState.webauthnBeginRegistration"; "runtimeState.webauthnFinishRegistration";
+  ["runtimeState.u2fRegisterRequest"; "runtimeState.u2fSignRequest";
+   "runtimeState.webauthnBeginRegistration";
    "runtimeState.webauthnAuthLogin"; "runtimeState.webauthnAuthFinish"; "runtimeState.vipPushStartHandler";
    "runtimeState.GenerateNewTOTP"; "runtimeState.oktaPushStartHandler"; "runtimeState.oktaPollCheckHandler";
    "runtimeState.BootstrapOtpAuthHandler"]%string.
@@ -159,6 +160,14 @@ Theorem c06_old_manage_refuted :
                   state_changing e = true /\ csrf_safe manage_u2f_old_steps = false.
 Proof. exists env0, (cross_get 1 bU2F), EChange. vm_compute. tauto. Qed.
 Print Assumptions c06_old_manage_refuted.
+
+(* the two registration-finish handlers before 6ebb558: a GET carrying the token's answer, a foreign
+   Referer and the victim's session stored a new hardware token *)
+Theorem c06_old_register_finish_refuted :
+  exists env q e, q_origin q = CrossOrigin /\ In e (snd (run env q register_finish_old_steps None)) /\
+                  state_changing e = true /\ csrf_safe register_finish_old_steps = false.
+Proof. exists env0, (cross_get 1 bU2F), EChange. vm_compute. tauto. Qed.
+Print Assumptions c06_old_register_finish_refuted.
 
 (* the certificate branch before the two repairs: (a) chains issued by the role CA counted as
    plain keymaster certificates (an automation certificate outside its netblocks was let in
